@@ -1,4 +1,5 @@
 """C05 — map as dictionary: structural clauses (DESIGN §4 C05)."""
+import re
 import lm
 import rules
 from lm import S, strip, cval, walk
@@ -400,27 +401,50 @@ def run(ck, P):
     body_ = [l for l in loops_ if cbs[0].block.id in l[2]]
     ck.need(len(body_) == 1, "m_map_iterate: callback is not inside exactly one loop")
     tail_, head_, blocks_ = body_[0]
-    steps = [e for e in mi.blocks[tail_].events if e.kind == "incdec" and e.e["op"] == "++" and strip(e.lhs)["k"] == "var"]
-    rewinds = [e for b_ in blocks_ for e in mi.blocks[b_].events if e.kind == "incdec" and e.e["op"] == "--" and strip(e.lhs)["k"] == "var"
-               and mi.ev_dominates(cbs[0], e)]
-    okw = len(steps) == 1 and len(rewinds) == 1 and S(steps[0].lhs) == S(rewinds[0].lhs)
-    if okw:
-        fr_ = X.facts(mi, rewinds[0])
-        okw = any(a_.endswith("->key == key)") and p_ is False for (a_, p_) in (fr_ or ()))
-    # ... whenever the callback removed the entry — for the first slot of the table as for any other (stepping back from slot 0 and
-    # forward again is exactly how slot 0 gets re-examined)
-    if okw:
-        cdi = mi.control_deps(transitive=False).get(rewinds[0].block.id, set())
-        conds_ = [S(mi.blocks[b_].term["cond"]) for b_ in cdi if mi.blocks[b_].term and mi.blocks[b_].term.get("cond") is not None]
-        extra_ = [c_ for c_ in conds_ if "->key" not in c_]
-        ck.ob("C05.8-ITERATE-REWIND", mi.site("rewind whenever the entry was removed"), not extra_,
-              "the rewind depends on the removal test only (%s)" % conds_ if not extra_ else
-              "the rewind after a removal is additionally conditioned on '%s': when that fails (the first slot of the table) the entry that back-shift "
-              "deletion moved into the visited slot is skipped — it is never shown to the callback" % extra_[0])
+    # Decided on the iterations themselves (every path once round the loop that runs the callback), not on how the stepping is spelt
+    # (`--entry` undone by the loop's `++entry`, or simply not advancing): the position advances by one slot when the callback left the
+    # entry and the length alone, and by nothing when the callback removed the entry (the slot's key changed) — whatever else holds.
+    def _rel(asm, pat):
+        """polarity of an == test matching pat among the path's assumptions (a != test counts with its polarity flipped)"""
+        for k_, v_ in asm.items():
+            m_ = re.match(r"^\((.+) (==|!=) (.+)\)$", k_)
+            if m_ and pat(m_.group(1), m_.group(3)) and v_ in (True, False):
+                return v_ if m_.group(2) == "==" else (not v_)
+        return None
+    is_keycmp = lambda l_, r_: (l_.endswith("->key") and "->" not in r_) or (r_.endswith("->key") and "->" not in l_)
+    is_lencmp = lambda l_, r_: l_.endswith("->length") or r_.endswith("->length")
+    kept_, removed_ = [], []
+    for path in mi.paths(loop_fragments=True):
+        evs_ = list(rules.path_events(mi, path))
+        if cbs[0] not in evs_ or any(e.kind == "ret" for e in evs_[evs_.index(cbs[0]):]):
+            continue
+        asm_ = rules.path_assumes_after(path, cbs[0]) if hasattr(rules, "path_assumes_after") else rules.path_assumes(path)
+        asm_ = dict(rules.path_assumes(path), **(asm_ or {}))
+        net_ = {}
+        for e in evs_[evs_.index(cbs[0]):]:
+            if e.kind == "incdec" and strip(e.lhs)["k"] == "var":
+                net_[S(e.lhs)] = net_.get(S(e.lhs), 0) + (1 if e.e["op"] == "++" else -1)
+            elif e.kind == "assign" and strip(e.lhs)["k"] == "var" and S(e.lhs) in net_:
+                net_[S(e.lhs)] = None
+        kc_, lc_ = _rel(asm_, is_keycmp), _rel(asm_, is_lencmp)
+        if kc_ is False:
+            removed_.append((net_, path))
+        elif kc_ is True and lc_ is True:
+            kept_.append((net_, path))
+    ck.need(kept_ and removed_, "m_map_iterate: no iteration path that keeps / that loses the current entry was recognised")
+    posv = sorted({v_ for (n_, _p) in kept_ for v_, d_ in n_.items() if d_ == 1})
+    okk = len(posv) == 1 and all(n_.get(posv[0]) == 1 for (n_, _p) in kept_)
+    badr_ = [(n_, p_) for (n_, p_) in removed_ if not okk or n_.get(posv[0], 0) != 0]
+    ck.ob("C05.8-ITERATE-REWIND", mi.site("rewind whenever the entry was removed"), okk and not badr_,
+          "on all %d iteration path(s) where the callback removed the current entry the position '%s' does not move (the slot is examined again)"
+          % (len(removed_), posv[0] if posv else "?") if okk and not badr_ else
+          "an iteration in which the callback removed the current entry moves the position by %s: the entry that back-shift deletion moved into "
+          "the visited slot is skipped — it is never shown to the callback"
+          % (badr_[0][0] if badr_ else "?"), path=rules.fmt_path(mi, badr_[0][1]) if badr_ else None)
+    okw = okk
     ck.ob("C05.8-ITERATE-REWIND", mi.site("rewind acts on the loop position"), okw,
-          "the loop steps '%s' and, when the callback removed the current entry, steps the same variable back once" % (S(steps[0].lhs) if steps else "?") if okw else
-          "the loop advances %s but the rewind after a removal decrements %s: a per-iteration copy is rewound, the position is not — the entry that back-shift "
-          "deletion moved into the visited slot is skipped" % ([S(e.lhs) for e in steps], [S(e.lhs) for e in rewinds]))
+          "an iteration that leaves the entry and the length alone advances exactly one position variable ('%s') by one" % (posv[0] if posv else "?") if okw else
+          "iterations that keep the entry advance %s: the position is not a single variable stepped once per kept entry" % posv)
 
     # remove deletes the named entry or nothing: the slot handed to the removal is occupied — known from a test of its key, or because the
     # lookup was asked for entries only (find_empty == false) and keeps that promise
